@@ -32,8 +32,9 @@ RULE = ("case = aligner class x 300-900 symbol stream with 10-50 markers at cont
 REQUIRED_BINS = (["chg_%d_%d" % (a, c) for a in range(4) for c in range(4)] +
                  ["class_word", "class_packet", "marker_shp", "marker_slc", "decoy_short_run", "decoy_ctrl_clear",
                   "gap_inside_marker", "gap_after_marker", "garbage_marker_in_gap", "markers_le_7_apart",
-                  "segment_ge_8_words", "no_gap_case", "train_same_offset", "first_marker_offset_nonzero"])
-REQUIRED_EVENTS = ["markers_in", "marker_words_out", "words_in", "words_out", "segment_words_compared", "offset_checks"]
+                  "segment_ge_8_words", "no_gap_case", "train_same_offset", "first_marker_offset_nonzero",
+                  "com_run_gt4", "markers_exactly_4_apart"])
+REQUIRED_EVENTS = ["markers_in", "marker_words_out", "words_in", "words_out", "segment_words_compared", "offset_checks", "com_runs_judged"]
 ASSUMPTIONS = ["sink words are cut from the symbol stream at index 0; a marker is exactly four symbols (COM runs are guarded by non-COM symbols)",
                "output before the first marker and the (at most 4) words around an offset change are not judged",
                "alignment_offset is judged only at the fourth word after a marker"]
@@ -101,6 +102,9 @@ def make_stream(rng, kind, nsyms, res):
         syms.extend(filler(pad))
         syms.extend(rng.choice(markers))
 
+    def fix(c):
+        return rng.randrange(4) if c is None else c
+
     # leading part without marker
     syms.extend(filler(rng.choice([0, 1, 2, 3, 5, 9])))
     cur = rng.randrange(4)
@@ -112,22 +116,37 @@ def make_stream(rng, kind, nsyms, res):
             first = False
         elif r < 0.22:                                  # train at the same offset (TS1/TS2: 16 symbols per set)
             res.bin("train_same_offset")
+            cur = fix(cur)
             for _ in range(rng.choice([2, 3, 5])):
                 place_marker(cur)
                 syms.append(guard())
                 syms.extend(filler(rng.choice([11, 11, 3, 7])))
         elif r < 0.40:                                  # slip by one symbol (either direction)
-            cur = (cur + rng.choice([1, 3])) % 4
+            cur = (fix(cur) + rng.choice([1, 3])) % 4
             place_marker(cur)
         elif r < 0.62:
             cur = rng.randrange(4)
             place_marker(cur)
         elif r < 0.74:                                  # close markers, different offsets
             for _ in range(rng.choice([2, 3])):
-                cur = (cur + rng.choice([1, 2, 3])) % 4
+                cur = (fix(cur) + rng.choice([1, 2, 3])) % 4
                 place_marker(cur)
-        elif r < 0.88:
+        elif r < 0.80:
             syms.extend(decoy())
+        elif r < 0.88:
+            if kind == "word":                          # run of 5..9 COMs: any four of them may become the alignment point
+                cur = rng.randrange(4)
+                pad = (cur - (len(syms) + 1)) % 4
+                syms.append(guard())
+                syms.extend(filler(pad))
+                syms.extend([(COM, 1)] * rng.choice([5, 6, 7, 8, 8, 9]))
+                syms.append(guard())
+                syms.extend(filler(rng.choice([12, 13, 14, 15, 22])))
+                cur = None
+            else:                                       # packet markers back to back (exactly 4 symbols apart)
+                place_marker(cur)
+                for _ in range(rng.choice([1, 1, 2])):
+                    syms.extend(rng.choice(markers))
         else:
             pass
         syms.append(guard())
@@ -265,10 +284,14 @@ def run_case(rng, tier, res):
 def judge(res, kind, accepted, outs):
     pats = MARKERS[kind]
     mpos = find_markers(accepted, kind)
-    for a, c in zip(mpos, mpos[1:]):
-        if c - a < 4:                                    # overlapping markers: outside the statement
-            res.unjudged += 1
-            return
+    # overlapping markers (a run of more than four COMs) form one cluster: the statement does not say which four
+    # COMs are "the" sequence, so any of them is accepted as the alignment point
+    clusters = []
+    for p in mpos:
+        if clusters and p - clusters[-1][-1] < 4:
+            clusters[-1].append(p)
+        else:
+            clusters.append([p])
     res.event("markers_in", len(mpos))
     out_marker_idx = [j for j, (w, _, _) in enumerate(outs) if w in pats]
     res.event("marker_words_out", len(out_marker_idx))
@@ -278,76 +301,125 @@ def judge(res, kind, accepted, outs):
         res.unjudged += out_marker_idx[0] if out_marker_idx else len(outs)
     transitions = set()
     prev_off = 0
-    broken = False
-    for k, p in enumerate(mpos):
-        off = p % 4
-        res.bin("chg_%d_%d" % (prev_off, off))
-        transitions.add((prev_off, off))
-        if accepted[p] == (SHP, 1):
-            res.bin("marker_shp")
-        elif accepted[p] == (SLC, 1):
-            res.bin("marker_slc")
-        p_next = mpos[k + 1] if k + 1 < len(mpos) else None
-        if p_next is not None and p_next - p <= 7:
-            res.bin("markers_le_7_apart")
-        if k >= len(out_marker_idx):
-            # never shown as a whole word: acceptable only if the stream ended before it could be
-            if p + 4 <= n_acc - 8:
-                res.violation("marker_not_presented_as_word",
-                              "marker #%d at symbol %d (offset %d, previous offset %d): only %d marker words in the output"
-                              % (k, p, off, prev_off, len(out_marker_idx)))
-            break
-        j = out_marker_idx[k]
-        # words required while the offset is unchanged
-        if p_next is None:
-            bound = n_acc - 1
-        elif (p_next - p) % 4 == 0:
-            bound = p_next - 1                            # straight up to the next marker word (judged as its own m = 0)
-        else:
-            bound = p_next - 4
-        m = 0
-        while p + 4 * m + 3 <= bound:
+    oi = 0                                   # output marker words consumed so far
+    complete = True
+
+    def compare_segment(j, q, bound, first_m, what):
+        """outs[j+m] must be accepted[q+4m:q+4m+4] for m = first_m.. while the word ends at or before `bound`.
+        returns (words matched, status) with status 'ok' | 'end' (output ended, tolerated) | 'bad'"""
+        m = first_m
+        while q + 4 * m + 3 <= bound:
             jj = j + m
             if jj >= len(outs):
-                if p_next is not None or (n_acc - (p + 4 * m)) // 4 > 2:
-                    res.violation("output_truncated", "segment of marker #%d at symbol %d: output ends after %d words, %d symbols still expected"
-                                  % (k, p, m, n_acc - (p + 4 * m)))
-                    broken = True
-                break
-            exp = accepted[p + 4 * m:p + 4 * m + 4]
+                return m, "end"
+            exp = accepted[q + 4 * m:q + 4 * m + 4]
             got, cyc, aoff = outs[jj]
-            res.event("segment_words_compared")
             if got != exp:
-                res.violation(classify(accepted, p + 4 * m, got, exp),
-                              "marker #%d at symbol %d (offset %d, previous %d): word %d after the marker = %r expected %r (cycle %d)"
-                              % (k, p, off, prev_off, m, got, exp, cyc))
-                broken = True
-                break
-            if m == 3:
-                res.event("offset_checks")
-                if aoff != off:
-                    res.violation("alignment_offset_wrong", "marker #%d at symbol %d: alignment_offset=%d expected %d (cycle %d)" % (k, p, aoff, off, cyc))
+                return m, ("bad", got, exp, cyc)
             m += 1
-        if broken:
+        return m, "ok"
+
+    for k, cl in enumerate(clusters):
+        p = cl[0]
+        p_next = clusters[k + 1][0] if k + 1 < len(clusters) else None
+        # the offset is unchanged until the next marker arrives: every word that lies wholly before it is required
+        bound = n_acc - 1 if p_next is None else p_next - 1
+        if oi >= len(out_marker_idx):
+            if cl[-1] + 4 <= n_acc - 8:
+                res.violation("marker_not_presented_as_word",
+                              "marker #%d at symbol %d (offset %d, previous offset %d): only %d marker words in the output"
+                              % (k, p, p % 4, prev_off, len(out_marker_idx)))
+            complete = False
             break
+        if len(cl) == 1:
+            off = p % 4
+            res.bin("chg_%d_%d" % (prev_off, off))
+            transitions.add((prev_off, off))
+            if accepted[p] == (SHP, 1):
+                res.bin("marker_shp")
+            elif accepted[p] == (SLC, 1):
+                res.bin("marker_slc")
+            if p_next is not None and p_next - p <= 7:
+                res.bin("markers_le_7_apart")
+            if p_next is not None and p_next - p == 4:
+                res.bin("markers_exactly_4_apart")
+            j = out_marker_idx[oi]
+            oi += 1
+            q = p
+            m, status = compare_segment(j, q, bound, 0, "marker")
+            res.event("segment_words_compared", m)
+        else:
+            run = cl[-1] - cl[0] + 4
+            e = p + run                                   # first symbol after the COM run
+            res.bin("com_run_gt4")
+            found = None
+            last_fail = None
+            for c in range(1, run // 4 + 2):
+                if oi + c - 1 >= len(out_marker_idx):
+                    break
+                jc = out_marker_idx[oi + c - 1]
+                for qc in range(max(p, e - 7), e - 3):
+                    mc, stc = compare_segment(jc, qc, bound, 1, "run")
+                    if stc in ("ok", "end") and (mc > 1 or stc == "end"):
+                        found = (c, jc, qc, mc, stc)
+                        break
+                    last_fail = (jc, qc, mc, stc)
+                if found:
+                    break
+            if not found:
+                if e + 12 <= n_acc - 8:
+                    res.violation("data_after_com_run_not_contiguous",
+                                  "run of %d COMs at symbol %d: no alignment on any four of them continues the stream without loss/duplication (last try %r)"
+                                  % (run, p, last_fail))
+                complete = False
+                break
+            c, j, q, m, status = found
+            oi += c
+            off = q % 4
+            res.event("segment_words_compared", m - 1)
+            res.event("com_runs_judged")
+        if status not in ("ok", "end"):
+            _, got, exp, cyc = status
+            res.violation(classify(accepted, q + 4 * m, got, exp),
+                          "marker #%d at symbol %d (offset %d, previous %d): word %d after the marker = %r expected %r (cycle %d)"
+                          % (k, q, off, prev_off, m, got, exp, cyc))
+            complete = False
+            break
+        if status == "end":
+            if p_next is not None or (n_acc - (q + 4 * m)) // 4 > 2:
+                res.violation("output_truncated", "segment of marker #%d at symbol %d: output ends after %d words, %d symbols still expected"
+                              % (k, q, m, n_acc - (q + 4 * m)))
+            complete = False
+            break
+        # alignment_offset: from the first word after the marker word on (its value on the marker word itself is
+        # not decided by the statement)
+        for mm in range(1, m):
+            _, cyc, aoff = outs[j + mm]
+            res.event("offset_checks")
+            if aoff != off:
+                res.violation("alignment_offset_wrong", "marker #%d at symbol %d: alignment_offset=%d expected %d at word %d after the marker (cycle %d)"
+                              % (k, q, aoff, off, mm, cyc))
+                break
         if m >= 8:
             res.bin("segment_ge_8_words")
-        if p_next is not None and k + 1 < len(out_marker_idx):
-            extra = out_marker_idx[k + 1] - (j + m)
-            if (p_next - p) % 4 == 0:
-                if extra != 0:
-                    res.violation("word_count_changed_at_same_offset", "between markers #%d and #%d (same offset %d): %d unexpected output words"
-                                  % (k, k + 1, off, extra))
-                    break
-            elif not 0 <= extra <= 4:
-                res.violation("word_count_wrong_at_offset_change", "between markers #%d (offset %d) and #%d (offset %d): %d output words between the judged segment and the next marker word"
-                              % (k, off, k + 1, p_next % 4, extra))
+        if p_next is not None and oi < len(out_marker_idx):
+            extra = out_marker_idx[oi] - (j + m)
+            same = len(clusters[k + 1]) == 1 and (p_next - q) % 4 == 0
+            if same and extra != 0:
+                res.violation("word_count_changed_at_same_offset", "between markers #%d and #%d (same offset %d): %d unexpected output words"
+                              % (k, k + 1, off, extra))
+                complete = False
                 break
-            else:
-                res.unjudged += extra
+            if not 0 <= extra <= 2:
+                res.violation("word_count_wrong_at_offset_change", "between markers #%d (offset %d) and #%d (offset %d): %d output words between the last word before the marker and the marker word"
+                              % (k, off, k + 1, p_next % 4, extra))
+                complete = False
+                break
+            res.unjudged += extra
         prev_off = off
-    if len(out_marker_idx) > len(mpos):
-        res.violation("spurious_marker_word", "%d marker words in the output for %d markers in the input" % (len(out_marker_idx), len(mpos)))
+    if complete and oi < len(out_marker_idx):
+        res.violation("spurious_marker_word", "%d marker words in the output, %d explained by the %d markers in the input"
+                      % (len(out_marker_idx), oi, len(mpos)))
     changes = [t for t in transitions if t[0] != t[1]]
     res.nontrivial = len(transitions) >= 3 and bool(changes)
 
